@@ -106,6 +106,8 @@ func genOps(b bias, guard bool) []mach.Op {
 			ops = append(ops, mach.Op{Name: "delall"})
 		case r < 0.78+b.emit:
 			ops = append(ops, mach.Op{Name: "mutnested", K: pickS(bkeys)})
+		case r < 0.83+b.emit:
+			ops = append(ops, mach.Op{Name: "mutprops"})
 		}
 	}
 	// terminal behaviour
@@ -260,11 +262,39 @@ func ctxFor(a *mach.ASpec) (context.Context, context.CancelFunc) {
 	return context.WithCancel(context.Background())
 }
 
+// sameMap: the returned bindings ARE the given bindings map, or contain it at any depth
+// (e.g. as the error state's lastBindings)
 func sameMap(a, b match.Bindings) bool {
 	if a == nil || b == nil {
 		return false
 	}
-	return reflect.ValueOf(a).Pointer() == reflect.ValueOf(b).Pointer()
+	return containsMap(map[string]interface{}(a), reflect.ValueOf(b).Pointer(), 0)
+}
+
+func containsMap(x interface{}, target uintptr, depth int) bool {
+	if depth > 40 {
+		return false
+	}
+	switch vv := x.(type) {
+	case match.Bindings:
+		return containsMap(map[string]interface{}(vv), target, depth)
+	case map[string]interface{}:
+		if vv != nil && reflect.ValueOf(vv).Pointer() == target {
+			return true
+		}
+		for _, v := range vv {
+			if containsMap(v, target, depth+1) {
+				return true
+			}
+		}
+	case []interface{}:
+		for _, v := range vv {
+			if containsMap(v, target, depth+1) {
+				return true
+			}
+		}
+	}
+	return false
 }
 
 // qvals reports whether a bound value contains a string or key beginning with '?'
@@ -430,6 +460,12 @@ func stepCase(id int, kind string, in stepIn) O {
 	return rec
 }
 
+// step properties with containers nested in maps and in arrays
+func genProps() core.StepProps {
+	return core.StepProps{"mid": "m1", "n": map[string]interface{}{"k": float64(1), "deep": map[string]interface{}{"z": []interface{}{float64(1)}}},
+		"l": []interface{}{map[string]interface{}{"c": float64(1)}, []interface{}{float64(1), map[string]interface{}{"d": "x"}}, "s"}}
+}
+
 func genStep(id int, kind string, b bias) O {
 	a := genSpec(b, 1+rng.Intn(2), true)
 	in := stepIn{a: a, node: "n0", bs: genBs(b), nilCtl: p(0.3), warm: p(0.4)}
@@ -440,7 +476,7 @@ func genStep(id int, kind string, b bias) O {
 		in.pending = pick(msgs)
 	}
 	if p(0.3) {
-		in.props = core.StepProps{"mid": "m1", "n": map[string]interface{}{"k": float64(1)}}
+		in.props = genProps()
 	}
 	return stepCase(id, kind, in)
 }
@@ -455,6 +491,7 @@ type walkIn struct {
 	limit  int
 	bps    []string
 	nilCtl bool
+	props  core.StepProps
 	orig   match.Bindings // pristine copy of bs: a modification of the caller's map by the first call must not leak into later calls
 }
 
@@ -470,13 +507,17 @@ func mkCtl(in walkIn) *core.Control {
 	return c
 }
 
-func doWalk(spec *core.Spec, a *mach.ASpec, st *core.State, ms []interface{}, ctl *core.Control) (O, *core.Walked) {
+func doWalk(spec *core.Spec, a *mach.ASpec, st *core.State, ms []interface{}, ctl *core.Control, props ...core.StepProps) (O, *core.Walked) {
+	var wprops core.StepProps
+	if len(props) > 0 {
+		wprops = props[0]
+	}
 	out := O{"outcome": "returned", "strides": T{}, "remaining": T{}, "stopped": "", "bpid": "", "cls": "", "errtext": "", "walked": false}
 	var w *core.Walked
 	var err error
 	ctx, cancel := ctxFor(a)
 	defer cancel()
-	co := guarded(func() { w, err = spec.Walk(ctx, st, ms, ctl, nil) })
+	co := guarded(func() { w, err = spec.Walk(ctx, st, ms, ctl, wprops) })
 	out["outcome"] = co.outcome
 	out["errtext"] = co.panicv
 	if co.outcome != "returned" {
@@ -525,12 +566,17 @@ func walkCase(id int, kind string, in walkIn, splits bool) O {
 	ctl := mkCtl(in)
 	rec := O{"id": id, "kind": kind, "spec": mach.EncSpec(in.a), "st": mach.EncState(st), "nilbs": in.bs == nil,
 		"perm": mach.PermNames(in.a, in.bs), "msgs": mach.EncMsgs(in.msgs), "limit": in.limit, "deflimit": defaultLimit, "bps": in.bps, "nilctl": in.nilCtl,
-		"raw": enc.Canon(O{"spec": in.a, "node": in.node, "bs": in.bs, "msgs": in.msgs, "limit": in.limit, "bps": in.bps, "nilctl": in.nilCtl})}
+		"raw": enc.Canon(O{"spec": in.a, "node": in.node, "bs": in.bs, "msgs": in.msgs, "limit": in.limit, "bps": in.bps, "nilctl": in.nilCtl, "props": in.props})}
 	if in.bps == nil {
 		rec["bps"] = T{}
 	}
 	specBefore := mach.SpecSnapshot(spec)
-	out, w := doWalk(spec, in.a, st, in.msgs, ctl)
+	propsBefore := enc.Canon(in.props)
+	var props2 core.StepProps
+	if in.props != nil {
+		props2 = core.StepProps(enc.DeepCopy(map[string]interface{}(in.props)).(map[string]interface{}))
+	}
+	out, w := doWalk(spec, in.a, st, in.msgs, ctl, in.props)
 	rec["out"] = out
 	shares := false
 	if w != nil {
@@ -545,10 +591,10 @@ func walkCase(id int, kind string, in walkIn, splits bool) O {
 		ctlSame = ctl.Limit == in.limit && len(ctl.Breakpoints) == len(in.bps)
 	}
 	rec["frame"] = O{"st": mach.EncState(st), "msgs": mach.EncMsgs(in.msgs), "specSame": specBefore == mach.SpecSnapshot(spec),
-		"ctlSame": ctlSame, "sharesBs": shares}
+		"ctlSame": ctlSame, "sharesBs": shares, "propsSame": propsBefore == enc.Canon(in.props)}
 	// identical second call on fresh copies
 	st2 := &core.State{NodeName: in.node, Bs: copyBs(in.orig)}
-	out2, _ := doWalk(spec, in.a, st2, copyMsgs(msgs0), mkCtl(in))
+	out2, _ := doWalk(spec, in.a, st2, copyMsgs(msgs0), mkCtl(in), props2)
 	rec["repeat"] = out2
 	// every split of the message sequence into consecutive batches (limit large, no breakpoints)
 	sp := T{}
@@ -608,6 +654,9 @@ func genWalk(id int, kind string, b bias) O {
 		in.bps = []string{pickS([]string{"n1", "n2", "error"})}
 	}
 	in.orig = copyBs(in.bs)
+	if p(0.3) {
+		in.props = genProps()
+	}
 	return walkCase(id, kind, in, true)
 }
 
@@ -911,7 +960,11 @@ func main() {
 			check(json.Unmarshal([]byte(r.Case.Raw), &pr))
 			out.write(persistCase(1, raw.Spec, bs, raw.Msgs, pr.SaveAt))
 		} else if raw.Msgs != nil || r.Case.Kind == "walk" || r.Case.Kind == "totalwalk" {
-			out.write(walkCase(1, r.Case.Kind, walkIn{a: raw.Spec, node: raw.Node, bs: bs, msgs: raw.Msgs, limit: raw.Limit, bps: raw.Bps, nilCtl: raw.Nilctl, orig: copyBs(bs)}, true))
+			var props core.StepProps
+			if raw.Props != nil {
+				props = core.StepProps(raw.Props)
+			}
+			out.write(walkCase(1, r.Case.Kind, walkIn{a: raw.Spec, node: raw.Node, bs: bs, msgs: raw.Msgs, limit: raw.Limit, bps: raw.Bps, nilCtl: raw.Nilctl, orig: copyBs(bs), props: props}, true))
 		} else {
 			var props core.StepProps
 			if raw.Props != nil {
